@@ -114,6 +114,61 @@ theorem selected_ancestors_selected {cfg : Cfg} {scan : List SEntry} (hu : Uniqu
   · exact absurd ((scanFilterGo_sublist cfg l1 []).subset h) hel1
   · exact List.mem_append_right _ (head_dir_selected cfg d _ _ e hdir h hprefix)
 
+/-- **parents first ⇒ the selected directory above a selected entry comes EARLIER in the selected list** (the filter
+    keeps the scan's order) -/
+theorem selected_ancestor_before {cfg : Cfg} {scan : List SEntry} (hu : UniqueRels scan)
+    (hpf : ParentsFirst scan) {e : SEntry} (he : e ∈ scanFilter cfg scan) {a : Path} (ha : a ∈ ancestors e.rel) :
+    ∃ d A B, scanFilter cfg scan = A ++ d :: B ∧ d.rel = a ∧ d.kind = .dir ∧ e ∈ B := by
+  have hes := mem_of_mem_scanFilter he
+  obtain ⟨n, hn, hget⟩ := List.getElem_of_mem hes
+  obtain ⟨d, hdt, hdr, hdk⟩ := hpf n hn a (by rw [hget]; exact ha)
+  obtain ⟨l1, l1', hl1⟩ := List.append_of_mem hdt
+  have hscan : scan = l1 ++ d :: (l1' ++ scan.drop n) := by
+    conv => lhs; rw [← List.take_append_drop n scan, hl1]
+    simp
+  have hedrop : e ∈ scan.drop n := by
+    rw [← hget]; exact List.mem_drop_iff_getElem.2 ⟨0, by simpa using hn, by simp⟩
+  have hpw := hu
+  unfold UniqueRels at hpw
+  rw [hscan, List.pairwise_append] at hpw
+  obtain ⟨_, hpw2, hcross⟩ := hpw
+  have hel1 : e ∉ l1 := by
+    intro h
+    exact hcross e h e (List.mem_cons_of_mem _ (List.mem_append_right _ hedrop)) rfl
+  have hed : d.rel ≠ e.rel :=
+    (List.pairwise_cons.1 hpw2).1 e (List.mem_append_right _ hedrop)
+  have hprefix : isPrefix d.rel e.rel = true := by rw [hdr]; exact (mem_ancestors.1 ha).2.1
+  have hdir : d.isDir = true := by simp [SEntry.isDir, hdk]
+  unfold scanFilter at he ⊢
+  rw [hscan, scanFilterGo_append] at he ⊢
+  rcases List.mem_append.1 he with h | h
+  · exact absurd ((scanFilterGo_sublist cfg l1 []).subset h) hel1
+  · have hdsel := head_dir_selected cfg d _ _ e hdir h hprefix
+    -- the head is selected: the filtered tail list starts with it
+    have hshape : ∃ B, scanFilterGo cfg (d :: (l1' ++ scan.drop n)) (exAfter cfg l1 []) = d :: B := by
+      rw [scanFilterGo] at hdsel ⊢
+      split
+      · rename_i hu'
+        rw [if_pos hu'] at hdsel
+        obtain ⟨x, hx, hpx⟩ := List.any_eq_true.1 hu'
+        have := scanFilterGo_not_under cfg _ _ d hdsel x hx
+        rw [hpx] at this; cases this
+      · rename_i hu'
+        rw [if_neg hu'] at hdsel
+        split
+        · rename_i hexc
+          rw [if_pos hexc] at hdsel
+          simp only [hdir, ↓reduceIte] at hdsel
+          have := scanFilterGo_not_under cfg _ _ d hdsel d.rel (by simp)
+          rw [isPrefix_refl] at this; cases this
+        · exact ⟨_, rfl⟩
+    obtain ⟨B, hB⟩ := hshape
+    rw [hB] at h ⊢
+    refine ⟨d, _, B, rfl, hdr, hdk, ?_⟩
+    rcases List.mem_cons.1 h with h | h
+    · exact absurd (h ▸ rfl) hed.symm
+    · exact h
+
 /-- **parents first ⇒ everything below an excluded (or dropped) directory is dropped** -/
 theorem below_unselected_dir_dropped {cfg : Cfg} {scan : List SEntry} (hu : UniqueRels scan)
     (hpf : ParentsFirst scan) {d e : SEntry} (hd : d ∈ scan) (hdk : d.kind = .dir)
